@@ -48,6 +48,15 @@ type universe struct {
 	VarNames   []string
 	// SlotVariants restricts which variants a slot may take (nil = all).
 	SlotVariants map[int][]int
+	// Preload: Services that exist, with recorded statuses, when the (first) controller instance starts -
+	// the initial state is then a restart on that store.
+	Preload []preSvc
+}
+
+type preSvc struct {
+	Slot, Variant int
+	Status        []string
+	FromPool      string
 }
 
 type crashSignal struct{ when string }
@@ -151,7 +160,26 @@ func newCtlSys(u *universe) *ctlSys {
 	}
 	s.start()
 	s.poolQ.Add("pool")
-	s.snapshotRef("quiescent")
+	for _, p := range u.Preload {
+		svc := s.materialise(p.Slot, p.Variant)
+		for _, ip := range p.Status {
+			svc.Status.LoadBalancer.Ingress = append(svc.Status.LoadBalancer.Ingress, v1.LoadBalancerIngress{IP: ip})
+		}
+		if p.FromPool != "" {
+			if svc.Annotations == nil {
+				svc.Annotations = map[string]string{}
+			}
+			svc.Annotations[refalloc.AnnFromPool] = p.FromPool
+		}
+		s.store.Put(svc)
+		s.svcQ.Add(u.Slots[p.Slot].Key())
+	}
+	if len(u.Preload) > 0 {
+		s.lastUserDesc = "restart"
+		s.snapshotRef("crash")
+	} else {
+		s.snapshotRef("quiescent")
+	}
 	return s
 }
 
@@ -447,7 +475,11 @@ func (s *ctlSys) Apply(ev verifrt.Event) {
 		nw := s.materialise(ev.A, ev.B)
 		if cur := s.services()[s.u.Slots[ev.A].Key()]; cur != nil {
 			// an update keeps what the controller manages: status and the allocated-from-pool annotation
-			nw.Status = *cur.Status.DeepCopy()
+			// (variants named *-statuswiped model an update that also resets status.loadBalancer, as the API
+			// server does when the type stops being LoadBalancer)
+			if !strings.HasSuffix(s.u.VarNames[ev.B], "-statuswiped") {
+				nw.Status = *cur.Status.DeepCopy()
+			}
 			if v, ok := cur.Annotations[refalloc.AnnFromPool]; ok {
 				if nw.Annotations == nil {
 					nw.Annotations = map[string]string{}
